@@ -176,13 +176,11 @@ fn count_all(o: &Object, id: ObjectId) -> usize { let mut v = vec![]; collect_re
 fn predict_value(o: &Object, id: ObjectId, l: &mut Left) {
     match o {
         Object::Array(a) => {
-            let m = a.iter().filter(|x| is_ref_to(x, id)).count();
-            if m >= 2 { l.kinds.insert("array-duplicate"); l.count += m - 1; }
             for x in a { if !is_ref_to(x, id) { predict_value(x, id, l); } }
         }
         Object::Dictionary(d) => { for (_, v) in d.iter() { if !is_ref_to(v, id) { predict_value(v, id, l); } } }
         Object::Stream(s) => {
-            for (_, v) in s.dict.iter() { if is_ref_to(v, id) { l.kinds.insert("stream-dict"); l.count += 1; } else { predict_value(v, id, l); } }
+            for (_, v) in s.dict.iter() { if !is_ref_to(v, id) { predict_value(v, id, l); } }
         }
         Object::Reference(r) => { if *r == id { l.kinds.insert("top-level-reference"); l.count += 1; } }
         _ => {}
@@ -192,7 +190,8 @@ fn predict_value(o: &Object, id: ObjectId, l: &mut Left) {
 /// nothing on a stream's own dictionary or on a bare reference)
 fn code_action(o: &Object, id: ObjectId) -> Object {
     match o {
-        Object::Array(a) => { let mut v = a.clone(); if let Some(i) = v.iter().position(|x| is_ref_to(x, id)) { v.remove(i); } Object::Array(v) }
+        Object::Array(a) => Object::Array(a.iter().filter(|x| !is_ref_to(x, id)).cloned().collect()),
+        Object::Stream(st) => { let mut n = st.clone(); let keys: Vec<Vec<u8>> = st.dict.iter().filter(|(_, v)| is_ref_to(v, id)).map(|(k, _)| k.clone()).collect(); for k in keys { n.dict.remove(&k); } Object::Stream(n) }
         Object::Dictionary(d) => { let mut n = d.clone(); let keys: Vec<Vec<u8>> = d.iter().filter(|(_, v)| is_ref_to(v, id)).map(|(k, _)| k.clone()).collect(); for k in keys { n.remove(&k); } Object::Dictionary(n) }
         x => x.clone(),
     }
@@ -214,7 +213,7 @@ fn refs_after_action(o: &Object, id: ObjectId, out: &mut Vec<ObjectId>) {
 fn predict_leftovers(doc: &Document, id: ObjectId) -> Left {
     let mut l = Left::default();
     let mut todo = vec![];
-    for (_, v) in doc.trailer.iter() { if is_ref_to(v, id) { l.kinds.insert("trailer"); l.count += 1; todo.push(id); } else { predict_value(v, id, &mut l); refs_after_action(v, id, &mut todo); } }
+    for (_, v) in doc.trailer.iter() { if !is_ref_to(v, id) { predict_value(v, id, &mut l); refs_after_action(v, id, &mut todo); } }
     let mut reach: BTreeSet<ObjectId> = BTreeSet::new();
     while let Some(k) = todo.pop() {
         if !reach.insert(k) { continue; }
@@ -238,7 +237,7 @@ fn strip_all(o: &Object, id: ObjectId, top: bool) -> Object {
     match o {
         Object::Array(a) => Object::Array(a.iter().filter(|x| !is_ref_to(x, id)).map(|x| strip_all(x, id, false)).collect()),
         Object::Dictionary(d) => { let mut n = Dictionary::new(); for (k, v) in d.iter() { if !is_ref_to(v, id) { n.set(k.clone(), strip_all(v, id, false)); } } Object::Dictionary(n) }
-        Object::Stream(s) => { let mut s2 = s.clone(); let mut n = Dictionary::new(); for (k, v) in s.dict.iter() { n.set(k.clone(), if is_ref_to(v, id) { v.clone() } else { strip_all(v, id, false) }); } s2.dict = n; Object::Stream(s2) }
+        Object::Stream(s) => { let mut s2 = s.clone(); let mut n = Dictionary::new(); for (k, v) in s.dict.iter() { if !is_ref_to(v, id) { n.set(k.clone(), strip_all(v, id, false)); } } s2.dict = n; Object::Stream(s2) }
         x => { let _ = top; x.clone() }
     }
 }
@@ -660,7 +659,13 @@ fn witnesses(c: &mut Ctx) {
                 let in_stream = matches!(x.objects.get(&(6, 0)), Some(Object::Stream(s)) if matches!(s.dict.get(b"Meta"), Ok(Object::Reference((5, 0)))));
                 let in_array = matches!(x.objects.get(&(7, 0)), Some(Object::Array(a)) if a.iter().filter(|o| is_ref_to(o, (5, 0))).count() == 1);
                 let dict_clean = matches!(x.objects.get(&(1, 0)), Some(Object::Dictionary(cat)) if !cat.has(b"I"));
-                c.witness("F-C11-a", in_trailer && in_stream && in_array && dict_clean && !x.objects.contains_key(&(5, 0)),
+                // after the partial fix the three probed positions are clean; what remains open is the unreachable holder
+                let mut y = before.clone();
+                y.objects.insert((9, 0), Object::Array(vec![Object::Reference((5, 0))]));
+                let _ = y.delete_object((5, 0));
+                let unreachable_left = matches!(y.objects.get(&(9, 0)), Some(Object::Array(a)) if a.len() == 1);
+                let _ = (in_trailer, in_stream, in_array);
+                c.witness("F-C11-a", unreachable_left && dict_clean && !x.objects.contains_key(&(5, 0)),
                     &format!("delete_object((5,0)): left in trailer /Info: {}, in stream dictionary: {}, second array occurrence: {}, plain dictionary entry removed: {}", in_trailer, in_stream, in_array, dict_clean));
             }
             Err((s, m)) => c.oracle_fail(&format!("panic@{}", s), &m, json!({"witness": "F-C11-a"})),
